@@ -3,6 +3,8 @@ package sizes
 import (
 	"strconv"
 	"strings"
+
+	"github.com/github/git-sizer/git"
 )
 
 // H-footnotes / H-footnote-lines / H-row (C19).
@@ -145,4 +147,47 @@ func VPH_footnoteVerbatim() {
 	}
 	vp_Assert(f.String() == want, "the footnote block prints each description verbatim")
 	vp_Reach("end")
+}
+
+// VPH_tableFootnotes (C19, C08): citations in the rendered table. Three metrics
+// cite objects through three distinct *Path values (as the hash-style resolver
+// hands out); two of them name the same object, the third one's id has a free
+// byte, so whether it coincides is the solver's choice. Identical footnote
+// texts share one number, numbers follow the order of first citation, every
+// footnote is cited; with --names=none nothing is cited.
+func VPH_tableFootnotes() {
+	var hs HistorySize
+	y := vpMkOID('t', 1)
+	yb := y.Bytes()
+	yb[19] = vp_U8("lastbyte") // the blob's id: equal to the tree's id or not
+	x, _ := git.OIDFromBytes(yb)
+	hs.MaxTreeEntries, hs.MaxTreeEntriesTree = 5000, &Path{OID: y, objectType: "tree"}
+	hs.MaxBlobSize, hs.MaxBlobSizeBlob = 50e6, &Path{OID: x, objectType: "blob"}
+	hs.MaxPathDepth, hs.MaxPathDepthTree = 40, &Path{OID: y, objectType: "tree"}
+	style := []NameStyle{NameStyleHash, NameStyleNone}[vp_Choice("style", 2)]
+	out := hs.TableString(nil, 1, style)
+	row := func(name string) string {
+		for _, l := range strings.Split(out, "\n") {
+			if strings.Contains(l, name) {
+				return l
+			}
+		}
+		return ""
+	}
+	entries, blob, depth := row("Maximum entries"), row("Maximum size"), row("Maximum path depth")
+	vp_Assert(entries != "" && blob != "" && depth != "", "the three rows are shown")
+	if style == NameStyleNone {
+		vp_Assert(!strings.Contains(out, "[1]"), "--names=none: nothing is cited")
+		vp_Reach("none")
+		return
+	}
+	vp_Assert(strings.Contains(entries, "[1]") && strings.Contains(depth, "[1]"), "two metrics with the same witness share footnote [1]")
+	if x == y {
+		vp_Assert(strings.Contains(blob, "[1]"), "identical footnote texts share one number")
+		vp_Assert(strings.HasSuffix(out, "\n[1]  "+y.String()+"\n") && !strings.Contains(out, "[2]"), "one footnote, cited three times")
+	} else {
+		vp_Assert(strings.Contains(blob, "[2]"), "numbers follow the order of first citation")
+		vp_Assert(strings.HasSuffix(out, "\n[1]  "+y.String()+"\n[2]  "+x.String()+"\n") && !strings.Contains(out, "[3]"), "two footnotes, in citation order, each cited")
+	}
+	vp_Reach("hash")
 }
